@@ -393,6 +393,7 @@ func runC16Concurrent(c *sim.Ctx, t *testing.T, faults bool) {
 	var lg *sim.Log
 	var memFinal, storeFinal string
 	var storeErr error
+	unfinished := false
 	sim.Bubble(c, t, func(s *sim.Sched) {
 		s.Horizon = 20 * time.Second
 		s.MaxSteps = 8000
@@ -474,6 +475,12 @@ func runC16Concurrent(c *sim.Ctx, t *testing.T, faults bool) {
 			})
 		}
 		s.Run()
+		if !s.Quiescent() {
+			unfinished = true
+			cancel()
+			s.Drain(600)
+			return
+		}
 		// faults have stopped, nothing is running: memory == store
 		memFinal = cwCanon(cwMemory(svc))
 		st, err := cwStore(ctx, svc)
@@ -491,12 +498,15 @@ func runC16Concurrent(c *sim.Ctx, t *testing.T, faults bool) {
 		hist += fmt.Sprintf("\n  %d %s %s %s %s", e.Seq, e.Task, e.Kind, firstWords(e.Id), e.Err)
 		c.MixHash(fmt.Sprintf("%d %s %s %s %s", e.Seq, e.Task, e.Kind, e.Id, e.Err))
 	}
-	if c.Sched.Exhausted {
-		c.Count("step_budget_exhausted")
-		return
-	}
 	if len(c.Sched.Deadlock) > 0 {
 		c.Violate("deadlock:"+siteFuncs(c.Sched.Deadlock), "tasks blocked on locks forever: %v%s", c.Sched.Deadlock, hist)
+	}
+	if c.Sched.Exhausted || (unfinished && len(c.Sched.Stuck) == 0 && len(c.Sched.Deadlock) == 0) {
+		c.Count("budget_exhausted_unfinished")
+		c.Trivial = true
+		return
+	}
+	if false {
 	}
 	if len(c.Sched.Stuck) > 0 {
 		c.Violate("memstore:stuck", "requests never returned: %v%s", c.Sched.Stuck, hist)
